@@ -16,10 +16,11 @@ def main(tier: str, seed: int) -> int:
                 '12,384 programs, replayed; traces: seeded generator over the full opcode table '
                 '(92 ops + NOP codes, nesting <= 4, boundary-biased operands, random caches / limits / flags / plugins / '
                 'contracts), one event per instruction / sub-tape entry / exit, validated step by step by TLC against '
-                'TapeVM.Step. distinct = distinct programs+configs; non-trivial = at least one instruction executed.')
+                'TapeVM.Step; the same for <witness, lock> pairs made by every builder family of tapescript.tools (29 kinds, honest and '
+                'perturbed): the builders\' actual bytecode is executed instruction by instruction against the specification. distinct = distinct programs+configs; non-trivial = at least one instruction executed.')
     rep.assumptions = ['reference primitives (hashlib, pure-Python Ed25519, struct float32, Python int) are correct',
                        'error message text is opaque; exception classes are compared',
-                       'OP_CHECK_TRANSFER outcome is adopted from the log (contract semantics are the embedder\'s)']
+                       'OP_CHECK_TRANSFER runs on the reference contract defined in TapeVM.tla (RefVP / RefVT / RefVC / RefAgg)']
     depth = 2 if tier == 'quick' else 3
     vmcheck.mc_family(rep, 'ctl', depth)
     vmcheck.mc_family(rep, 'alu', 0)
@@ -38,7 +39,8 @@ def main(tier: str, seed: int) -> int:
                                                                  for e in t['ev'][:6]]})
         vmcheck.check_traces(rep, traces, 'full-opcode generator')
     m = 500 if tier == 'quick' else 5000
-    for gen in ('vf.gen.runs:make_cachey', 'vf.gen.runs:make_hungry', 'vf.gen.runs:make_auth_adv', 'vf.gen.runs:make_forked'):
+    for gen in ('vf.gen.runs:make_cachey', 'vf.gen.runs:make_hungry', 'vf.gen.runs:make_auth_adv', 'vf.gen.runs:make_forked',
+                'vf.gen.builders:make_builder_run'):
         traces = vmcheck.record([(gen, base + 10 ** 6 + i, {}) for i in range(m)])
         vmcheck.check_traces(rep, traces, gen.split(':')[1])
     return rep.finish()
